@@ -65,11 +65,15 @@ def run(ctx):
     else:
         d = draws[0]
         u = d.res
-        # the log-density type as THIS impl names it: second generic argument of the chain type (MHMarkovChain<S, F, D, Q>); a helper in
-        # another impl block may call it by another name, so the callee's own generic names are not comparable
-        m_ty = re.match(r'[^<]*<\s*([^,<>]+)\s*,\s*([^,<>]+)\s*,', b.get('self_ty') or '')
-        fty = m_ty.group(2).strip() if m_ty else (logps[0].fn['args'][2] if logps and logps[0].owner == strip_generics(b['path']) else None)
-        okk = (d.draw_kind == 'rng_random' and root_place(d.args[0]) == 'self.rng' and len(d.gargs) > 1 and (fty is None or d.gargs[1] == fty))
+        # generic parameters are named per impl block (the trait impl says MHMarkovChain<T, F, D, Q>, an inherent impl holding a helper
+        # may say MHMarkovChain<S, T, D, Q>): compare POSITIONS in the self type of the function that owns the draw -- the log-density
+        # type is the chain type's second generic argument
+        def self_args(path):
+            ob = [x for x in ctx.facts.bodies if strip_generics(x['path']) == path and x.get('self_ty')]
+            m_ = re.match(r'[^<]*<(.*)>\s*$', ob[0]['self_ty']) if ob else None
+            return [a.strip() for a in m_.group(1).split(',')] if m_ else []
+        owner_args = self_args(d.owner or strip_generics(b['path'])) or self_args(strip_generics(b['path']))
+        okk = (d.draw_kind == 'rng_random' and root_place(d.args[0]) == 'self.rng' and len(d.gargs) > 1 and len(owner_args) >= 2 and d.gargs[1] == owner_args[1])
         ctx.check('C01.draw', A, 'u', okk, expected='Rng::random::<F>() [StandardUniform over the log-density type] on self.rng',
                   found='%s<%s> on %s' % (d.draw_kind, ','.join(d.gargs[1:]), root_place(d.args[0])),
                   why='u must be uniform on [0,1) in the precision of the log-densities and come from the chain generator', sp=d.sp)
